@@ -47,7 +47,7 @@ impl Scenario for C17 {
             for _ in 0..len {
                 let kind = *b.rng.pick(&[Kind::Local, Kind::Secret, Kind::Public, Kind::PkePublic, Kind::PkeSecret]);
                 let byte = b.rng.usize_below(4096);
-                let op = match b.rng.below(if bk == Bk::V1 { 40 } else { 30 }) {
+                let op = match b.rng.below(if bk == Bk::V1 { 44 } else { 34 }) {
                     0..=3 => TOp::Encrypt { len: b.rng.usize_below(100) },
                     4 | 5 => TOp::Sign { len: b.rng.usize_below(100) },
                     6 | 7 => TOp::DecryptOwn,
@@ -71,8 +71,25 @@ impl Scenario for C17 {
                     26 | 27 => TOp::HandOff { kind, to: b.rng.usize_below(nthreads) },
                     28 => TOp::EncryptRngFail,
                     29 => TOp::ParseGarbageKey { kind: if bk == Bk::V1 { Kind::Local } else { kind } },
+                    30 => TOp::UnsealKeyWrongRecipient,
+                    31 => TOp::UnwrapPieWrongKey,
+                    32 => TOp::DecryptWrongKey,
+                    33 => TOp::VerifyWrongKey,
                     _ => TOp::Encrypt { len: b.rng.usize_below(100) },
                 };
+                // a wrong-key attempt is most interesting right before the right key is used on the same artifact
+                if matches!(op, TOp::UnsealKeyWrongRecipient) {
+                    s.push(TOp::SealKey);
+                    s.push(op);
+                    s.push(TOp::UnsealKeyOwn);
+                    continue;
+                }
+                if matches!(op, TOp::UnwrapPieWrongKey) {
+                    s.push(TOp::WrapPie);
+                    s.push(op);
+                    s.push(TOp::UnwrapPieOwn);
+                    continue;
+                }
                 s.push(op);
             }
             scripts.push(s);
